@@ -239,7 +239,7 @@ def run(pid, tier, seed, replay=None):
     fam = FAMILY[pid]
     hv = vlib.build_hv()
     d = vlib.workdir(pid)
-    viol_dir = os.path.join(vlib.WORK, pid + "_violations")
+    viol_dir = os.path.join(vlib.WORK, pid + "_violations" + vlib.work_tag())
     os.makedirs(viol_dir, exist_ok=True)
 
     if replay:
